@@ -5,8 +5,8 @@ import PV.C05.Thm
   (a) character boundaries: C05 (`tokens_on_boundaries`, via `PV.C02.tiledP_of_lexer`);
   (c) behind a leading BOM every token starts at byte 3 or later (`Lexer::new` skips the BOM before the first token is
       produced): `lexed_initCursor_le`, proved here;
-  (b) "no token starts or ends between a CR and its LF" stays a hypothesis (`CrlfClear`): true of the lexer (a CR LF is one
-      NEWLINE / NonLogicalNewline token or interior to a string token or a gap) but not stated by any lexer theorem yet.
+  (b) "no token starts or ends between a CR and its LF" is the hypothesis `CrlfClear` HERE; it is proved of the lexer model
+      in CrlfStep.lean / CrlfClear.lean (`lexed_crlfClear`), where the primed theorems `lexed_parsed_tree_*'` drop it.
   `lexed_parsed_tree_*`: the two sentences of the property for `lex` → sub-sequence → `parseRProgram` → fold, with
   `CrlfClear` as the only hypothesis about offsets.
 -/
